@@ -81,6 +81,8 @@ def install(eng):
     eng.strconst_by_id = {}
     from . import prims_smt
     prims_smt.install(eng)
+    from . import twisted_model
+    twisted_model.install(eng)
 
 
 # ---------------------------------------------------------------------------------------------- logging
@@ -186,9 +188,28 @@ def index(eng, base, idx):
         if base.ty[1] == ANY:
             raise PyRaise('KeyError')
         key = T.coerce(idx, base.ty[1])
-        eng.prove_internal('dict key', z3.Contains(T.dict_keys(base), z3.Unit(key.t)), 'KeyError')
-        return V(base.ty[2], z3.Select(T.dict_map(base), key.t))
+        eng.prove_internal('dict key', dict_member(eng, base, key.t), 'KeyError')
+        val = V(base.ty[2], z3.Select(T.dict_map(base), key.t))
+        if not eng.pure:
+            from . import heapglue
+            heapglue.note_entry_read(eng, base, key, val, z3.BoolVal(True))
+        return val
     raise_unsupported('subscript of %s' % (base.ty,))
+
+
+def dict_member(eng, d, key_t):
+    """k in d  (membership array; instantiated link to the ordered key list: a member implies a non-empty list)"""
+    has = z3.Select(T.dict_has(d), key_t)
+    eng.axiom(z3.Implies(has, z3.Length(T.dict_keys(d)) >= 1))
+    return has
+
+
+def dict_key_at(eng, d, i):
+    """the i-th key in insertion order is a member"""
+    keys = T.dict_keys(d)
+    kt = keys[i]
+    eng.axiom(z3.Implies(z3.And(i >= 0, i < z3.Length(keys)), z3.Select(T.dict_has(d), kt)))
+    return kt
 
 
 def dict_set(eng, d, key, val):
@@ -197,10 +218,10 @@ def dict_set(eng, d, key, val):
         d = T.empty_dict(('dict', key.ty, val.ty))
     key = T.coerce(key, d.ty[1])
     val = T.coerce(val, d.ty[2])
-    keys, mp = T.dict_keys(d), T.dict_map(d)
-    present = z3.Contains(keys, z3.Unit(key.t))
+    keys, has, mp = T.dict_keys(d), T.dict_has(d), T.dict_map(d)
+    present = z3.Select(has, key.t)
     nkeys = z3.If(present, keys, z3.Concat(keys, z3.Unit(key.t)))
-    return V(d.ty, T.info(d.ty)['mk'](nkeys, z3.Store(mp, key.t, val.t)))
+    return V(d.ty, T.info(d.ty)['mk'](nkeys, z3.Store(has, key.t, z3.BoolVal(True)), z3.Store(mp, key.t, val.t)))
 
 
 def setitem(eng, base, key, val):
@@ -218,17 +239,18 @@ def delitem(eng, base, key):
 def dict_del(eng, d, key, exc):
     from .engine import UF
     key = T.coerce(key, d.ty[1])
-    keys, mp = T.dict_keys(d), T.dict_map(d)
-    present = z3.Contains(keys, z3.Unit(key.t))
+    keys, has, mp = T.dict_keys(d), T.dict_has(d), T.dict_map(d)
+    present = dict_member(eng, d, key.t)
     if exc:
         eng.prove_internal('dict key', present, exc)
-    # keys are distinct (dict invariant): removing = keys without the single occurrence
+    # keys are distinct (dict representation invariant): removing = the list without the single occurrence
     rm = UF('seq_remove_' + T.mangle(d.ty[1]), keys.sort(), T.sort_of(d.ty[1]), keys.sort())
     nkeys = rm(keys, key.t)
+    eng.axiom(z3.Implies(present, z3.Length(nkeys) == z3.Length(keys) - 1))
+    eng.axiom(z3.Implies(z3.Not(present), nkeys == keys))
     i = z3.IndexOf(keys, z3.Unit(key.t), 0)
     eng.axiom(z3.Implies(present, nkeys == z3.Concat(z3.Extract(keys, 0, i), z3.Extract(keys, i + 1, z3.Length(keys) - i - 1))))
-    eng.axiom(z3.Implies(z3.Not(present), nkeys == keys))
-    return V(d.ty, T.info(d.ty)['mk'](nkeys, mp))
+    return V(d.ty, T.info(d.ty)['mk'](nkeys, z3.Store(has, key.t, z3.BoolVal(False)), mp))
 
 
 # ---------------------------------------------------------------------------------------------- struct
@@ -523,6 +545,20 @@ def b_list(eng, args, kwargs, fr, node):
         if after is not None:
             after()
         return items
+    from .engine import PyObj as _PO
+    if isinstance(v, _PO) and v.kind == 'dictview':
+        d, what = v.payload
+        if d.ty[1] == ANY:
+            return V(('list', ANY), None)
+        keys, mp = T.dict_keys(d), T.dict_map(d)
+        if what == 'keys':
+            return V(('list', d.ty[1]), keys)
+        # a snapshot list of the values: L[i] == map[keys[i]] (instantiated at element reads)
+        ety = d.ty[2] if what == 'values' else ('tuple', (d.ty[1], d.ty[2]))
+        L = eng.fresh(('list', ety), 'snapshot')
+        eng.assume(z3.Length(L.t) == z3.Length(keys))
+        eng.st.ghost.setdefault('snapshots', {})[L.t.get_id()] = (d, what, eng.st.ghost.get('nhavoc', 0))
+        return L
     if v.ty[0] == 'list':
         return v
     if v.ty[0] == 'dict':
@@ -904,28 +940,51 @@ def dict_method(eng, d, attr, args, kwargs, fr, node, tnode):
             raise PyRaise('KeyError')
         raise_unsupported('dict.%s on empty literal' % attr)
     keys, mp = T.dict_keys(d), T.dict_map(d)
+    from . import heapglue
     if attr == 'get':
         key = T.coerce(args[0], d.ty[1])
         dflt = args[1] if len(args) > 1 else VNONE
-        present = z3.Contains(keys, z3.Unit(key.t))
+        present = dict_member(eng, d, key.t)
         val = V(d.ty[2], z3.Select(mp, key.t))
         if eng.pure:
             return eng.ite(present, val, dflt)
         if eng.branch(present):
+            heapglue.note_entry_read(eng, d, key, val, z3.BoolVal(True))
             return val
         return dflt
     if attr == 'pop':
         key = T.coerce(args[0], d.ty[1])
-        present = z3.Contains(keys, z3.Unit(key.t))
+        present = dict_member(eng, d, key.t)
         val = V(d.ty[2], z3.Select(mp, key.t))
         if len(args) > 1:
             if eng.branch(present):
+                heapglue.note_entry_read(eng, d, key, val, z3.BoolVal(True))
                 eng.assign(tnode, dict_del(eng, d, key, None), fr)
                 return val
             return args[1]
         nd = dict_del(eng, d, key, 'KeyError')
+        heapglue.note_entry_read(eng, d, key, val, z3.BoolVal(True))
         eng.assign(tnode, nd, fr)
         return val
+    if attr == 'popitem':
+        n = z3.Length(keys)
+        eng.prove_internal('popitem from empty dict', n > 0, 'KeyError')
+        last = True
+        if args:
+            lv = z3.simplify(eng.truth(args[0]))
+            last = not z3.is_false(lv)
+        kt = dict_key_at(eng, d, n - 1 if last else z3.IntVal(0))
+        key = V(d.ty[1], kt)
+        val = V(d.ty[2], z3.Select(mp, kt))
+        heapglue.note_entry_read(eng, d, key, val, z3.BoolVal(True))
+        nkeys = z3.Extract(keys, 0, n - 1) if last else z3.Extract(keys, 1, n - 1)
+        eng.assign(tnode, V(d.ty, T.info(d.ty)['mk'](nkeys, z3.Store(T.dict_has(d), kt, z3.BoolVal(False)), mp)), fr)
+        return T.mk_tuple([key, val])
+    if attr == 'clear':
+        eng.assign(tnode, T.empty_dict(d.ty), fr)
+        return VNONE
+    if attr == 'copy':
+        return d
     raise_unsupported('dict.%s' % attr)
 
 
@@ -1005,28 +1064,83 @@ def icb_yield(eng, node, fr):
 
 
 def heap_read(eng, ref, field):
-    raise_unsupported('heap read')
+    from . import heapglue
+    return heapglue.heap_read(eng, ref, field)
 
 
 def heap_write(eng, ref, field, v):
-    raise_unsupported('heap write')
+    from . import heapglue
+    return heapglue.heap_write(eng, ref, field, v)
 
 
 def havoc_heap_for_loop(eng, s, fr, spec):
-    pass
+    from . import heapglue
+    return heapglue.havoc_heap_for_loop(eng, s, fr, spec)
 
 
 def construct_object(eng, ci, args, kwargs, fr, node):
-    raise_unsupported('construction of %s objects' % ci.name)
+    from . import heapglue
+    return heapglue.construct_object(eng, ci, args, kwargs, fr, node)
 
 
 def old_expr(eng, arg, fr):
-    raise_unsupported('old() of a non-name')
+    from . import heapglue
+    return heapglue.old_expr(eng, arg, fr)
 
 
 def unit_entry(eng, fi, c, fr):
-    pass
+    from . import heapglue
+    return heapglue.unit_entry(eng, fi, c, fr)
 
 
 def unit_exit(eng, fi, c, fr, outcome):
-    pass
+    from . import heapglue
+    return heapglue.unit_exit(eng, fi, c, fr, outcome)
+
+
+def apply_entry_point(eng, fi, c, what):
+    """an entry point of one of our objects runs here (synchronously): it may assume the object invariant (minus the
+    clauses it declares exempt at entry), it re-establishes the whole invariant, and it may change any mutable field"""
+    from . import heap as H
+    n = eng.callcount.get('ep', 0) + 1
+    eng.callcount['ep'] = n
+    exempt = set(c.extra.get('inv_exempt_at_entry', []))
+    objs = list(eng.st.ghost.get('inv_objects', {}).values())
+    for ref in objs:
+        H.assert_invariant(eng, ref, 'at-entry-of#%d(%s)' % (n, c.qualname.split('.')[-1]), exempt=exempt)
+    old = H.havoc(eng, what)
+    for ref in objs:
+        H.assume_invariant(eng, ref)
+        H.assume_rely(eng, ref, old)
+
+
+def apply_method_contract(eng, fi, c, args, kwargs, node):
+    """modular call of a method under contract: requires now, havoc, ensures (two-state)"""
+    from . import heap as H
+    from .engine import Frame, PyRaise
+    fr_c = Frame(fi)
+    bound = eng.bind_args(c.params, args, dict(kwargs), defaults_frame=fr_c)
+    fr_c.vars.update(bound)
+    nm = fi.qualname.split('afkak.')[-1]
+    eng.callcount[nm] = eng.callcount.get(nm, 0) + 1
+    siteid = '%s#%d' % (nm, eng.callcount[nm])
+    for i, r in enumerate(c.requires):
+        eng.prove('pre@%s.%d' % (siteid, i + 1), eng.pure_bool(r, fr_c), kind='pre')
+    outcomes = [('ok', None)] + [(k_, eng.pure_bool(v_[4:] if v_.startswith('iff:') else v_, fr_c)) for k_, v_ in c.raises.items()]
+    conds = [z3.BoolVal(True)] + [o[1] for o in outcomes[1:]]
+    idx = eng.choose(conds) if len(conds) > 1 else 0
+    old = H.havoc(eng, 'call of ' + nm)
+    eng.st.ghost['old_heap_stack'] = eng.st.ghost.get('old_heap_stack', []) + [old]
+    try:
+        if idx > 0:
+            raise PyRaise(outcomes[idx][0].split('[')[0], msg='raised by %s' % nm)
+        res = eng.fresh(c.ret_ty, 'r_' + nm.split('.')[-1]) if c.ret_ty != NONE else VNONE
+        fr_c.ghost['result'] = res
+        for name, e in c.ensures.items():
+            eng.assume(eng.pure_bool(e, fr_c))
+    finally:
+        eng.st.ghost['old_heap_stack'] = eng.st.ghost['old_heap_stack'][:-1]
+    if c.extra.get('establishes_invariant', True):
+        for ref in eng.st.ghost.get('inv_objects', {}).values():
+            H.assume_invariant(eng, ref)
+    return res
